@@ -183,6 +183,17 @@ func (s *SelectStmt) ValidateFields(ctx *CheckCtx) error {
 			}
 		}
 	}
+	// A name used ahead of the field it names (select b as c, a as b, key as a)
+	// was looked up before that field was wrapped: look it up again
+	for _, f := range s.Fields {
+		if ref, ok := f.(*FieldReferenceExpr); ok {
+			if _, isName := ref.FieldExpr.(*NameExpr); isName {
+				if nexpr, have := ctx.GetNamedExpr(ref.Name.Data); have && nexpr != f {
+					ref.FieldExpr = nexpr
+				}
+			}
+		}
+	}
 	// Resolve the field names inside every field before any field is checked:
 	// a field used ahead of the field it is defined through (select b + 'x' as s,
 	// a + 'y' as b, key as a) would otherwise be typed from a half resolved definition
